@@ -225,15 +225,17 @@ Quantifiable(t) ==
      /\ \A k \in 1..n : Kind(t, k) \notin {"star", "plus"}
      /\ \A k \in 1..n : Kind(t, k) = "alt" => Starts(L(t, k)) \cap Starts(R(t, k)) = {}
 
+\* (TLCEval makes TLC build the explicit sets: enumerating a lazily represented union of 10^4 sequences is quadratic)
 RECURSIVE Trees(_)
 Trees(n) ==
   IF n = 1 THEN {<<lf>> : lf \in Leaves}
-  ELSE {Append(t, <<u, 0, n - 1, 0>>) : t \in Trees(n - 1), u \in {"grp", "opt"}}
+  ELSE TLCEval(
+       {Append(t, <<u, 0, n - 1, 0>>) : t \in Trees(n - 1), u \in {"grp", "opt"}}
        \cup {Append(t, <<u, 0, n - 1, 0>>) : t \in {x \in Trees(n - 1) : Quantifiable(x)}, u \in {"star", "plus"}}
        \cup UNION { {lt \o Shift(rt, i) \o << <<b, 0, i, n - 1>> >> : lt \in Trees(i), rt \in Trees(n - 1 - i), b \in BinaryKinds}
-                    : i \in 1..(n - 2) }
+                    : i \in 1..(n - 2) })
 
-AllASTs == {<<>>} \cup UNION {Trees(n) : n \in 1..MaxNodes}
+AllASTs == TLCEval({<<>>} \cup UNION {Trees(n) : n \in 1..MaxNodes})
 
 \* every quantifier in t sits on a quantifiable operand (closed under taking subtrees by construction)
 Subtree(t, k) == LET RECURSIVE Sz(_)
